@@ -23,6 +23,7 @@ type profile struct {
 	proj     int64
 	rule     string
 	pre      []func(h *Hist) // scripted preludes: the i-th one opens the i-th history of the stream (no limits configured there)
+	preT     []func(h *Hist) // further preludes of the thorough tier
 }
 
 var baseWeights = map[string]int{
@@ -745,12 +746,13 @@ func (h *Hist) actHugeTotals() {
 		return
 	}
 	for i := 0; i < 2; i++ {
-		q := h.OpMintQuote(mode{}, 1<<62, false, false, true)
+		// 2^54 sat is the largest power of two an invoice can carry (amount*1000 must fit 64 bits)
+		q := h.OpMintQuote(mode{}, 1<<54, false, false, true)
 		if q == nil {
 			return
 		}
 		h.EnvSettle(q)
-		h.OpMint(mode{}, q, h.freshOutputs([]uint64{1 << 59, 1 << 59, 1 << 59, 1 << 59, 1 << 59, 1 << 59, 1 << 59, 1 << 59}), 0, false)
+		h.OpMint(mode{}, q, h.freshOutputs([]uint64{1 << 53, 1 << 52, 1 << 52}), 0, false)
 		h.OpBalance(mode{})
 	}
 	h.nontrivial = true
@@ -907,6 +909,10 @@ func histStream(p profile) streamFn {
 		if p.prop == "C02" {
 			clnProbe(sink)
 		}
+		pre := p.pre
+		if tier == "thorough" {
+			pre = append(append([]func(*Hist){}, p.pre...), p.preT...)
+		}
 		for i := 0; i < n; i++ {
 			cfg := cfgT{feePct: []uint64{0, 1, 1, 2, 5}[rng.Intn(5)], fee0: p.fees[rng.Intn(len(p.fees))]}
 			if rng.Intn(100) < p.mppProb {
@@ -923,13 +929,13 @@ func histStream(p profile) streamFn {
 					cfg.maxBalance, cfg.maxMint, cfg.maxMelt = 127, 64, 16
 				}
 			}
-			if i < len(p.pre) {
+			if i < len(pre) {
 				cfg.maxBalance, cfg.maxMint, cfg.maxMelt = 0, 0, 0
 			}
 			h := NewHist(sink, rng, scratch, cfg, p.proj, p.prop)
 			h.actFund(false, false)
-			if i < len(p.pre) {
-				p.pre[i](h)
+			if i < len(pre) {
+				pre[i](h)
 			}
 			ops := p.minOps + rng.Intn(p.maxOps-p.minOps+1)
 			for j := 0; j < ops; j++ {
@@ -969,6 +975,54 @@ func preLateSettle(h *Hist) {
 	h.OpAdmin(adminReq{method: "issued_ecash"})
 	h.OpAdmin(adminReq{method: "total_balance"})
 	h.OpBalance(mode{})
+	h.nontrivial = true
+}
+
+// totals beyond 2^53 (where a double stops counting in ones): the views, the balance and the info flag stay exact (C16)
+func preLargeTotals(h *Hist) {
+	q := h.OpMintQuote(mode{}, 1<<53+1, false, false, true)
+	if q == nil {
+		return
+	}
+	h.EnvSettle(q)
+	h.OpMint(mode{}, q, h.freshOutputs([]uint64{1 << 53, 1}), 0, false)
+	views := func() {
+		h.OpBalance(mode{})
+		h.OpInfo(mode{})
+		h.OpAdmin(adminReq{method: "issued_ecash"})
+		h.OpAdmin(adminReq{method: "redeemed_ecash"})
+		h.OpAdmin(adminReq{method: "total_balance"})
+	}
+	views()
+	var ins []inSpec
+	for _, s := range h.spendable() {
+		if s.amount == 1<<53 || (s.amount == 1 && len(ins) < 2) {
+			ins = append(ins, h.honest(s))
+		}
+	}
+	h.OpSwap(mode{}, ins, h.honestSwapOutputs(ins))
+	views()
+	h.nontrivial = true
+}
+
+// 512 quotes of 2^54 sat (the largest power of two an invoice can carry): the per-keyset total reaches 2^63, where SQLite's SUM
+// raises "integer overflow" - the views, the balance and every reader of them must report the error, not a number (C16)
+func preOverflowTotals(h *Hist) {
+	for i := 0; i < 512; i++ {
+		q := h.OpMintQuote(mode{}, 1<<54, false, false, true)
+		if q == nil {
+			return
+		}
+		h.EnvSettle(q)
+		h.OpMint(mode{}, q, h.freshOutputs([]uint64{1 << 54}), 0, false)
+		if i == 255 || i >= 510 {
+			h.OpBalance(mode{})
+			h.OpInfo(mode{})
+			h.OpAdmin(adminReq{method: "issued_ecash"})
+			h.OpAdmin(adminReq{method: "total_balance"})
+		}
+	}
+	h.OpMintQuote(mode{}, 1, false, false, true)
 	h.nontrivial = true
 }
 
@@ -1045,6 +1099,6 @@ func init() {
 	register("c16-hist", "C16", histStream(profile{prop: "C16", histQ: 150, histT: 2500, minOps: 8, maxOps: 30, proj: 1,
 		fees: []uint{0, 100}, mppProb: 10, limits: true,
 		w: weightsWith(map[string]int{"balance": 16, "info": 12, "quote-bad": 10, "fund": 20, "melt": 10, "swap": 10, "overshoot": 8, "info-cycle": 10, "reconfigure": 6, "admin": 14}),
-		pre: []func(*Hist){preLateSettle},
+		pre: []func(*Hist){preLateSettle, preLargeTotals}, preT: []func(*Hist){preOverflowTotals},
 		rule: "histories under limit configurations (unset / small / at the boundary) with balance and info queries and quote requests near 2^63 and 2^64; non-trivial = a limit was configured"}))
 }
